@@ -57,6 +57,54 @@ func loadGrid(path string) ([]*gridIRI, error) {
 }
 
 func init() {
+	// vh c14-paths cases.ndjson trace.ndjson sampleEvery : AddPath / Contains (growth leg, observations)
+	register("c14-paths", func(args []string) error {
+		w, err := newNDWriter(args[1])
+		if err != nil {
+			return err
+		}
+		every := atoi(args[2])
+		n := 0
+		err = readNDJSON(args[0], func(raw []byte) error {
+			var c struct {
+				Ev, S, A, B, Out string
+				Els              []string
+				Cs, Res          bool
+				Ci, Cw           J
+			}
+			if err := json.Unmarshal(raw, &c); err != nil {
+				return err
+			}
+			n++
+			if c.Ev == "addpath" {
+				var got string
+				p := guard(func() { got = string(ap.IRI(c.S).AddPath(c.Els...)) })
+				if p != "" {
+					got = "panic: " + p
+				}
+				els := c.Els
+				if els == nil {
+					els = []string{}
+				}
+				w.Write(J{"ev": "addpath", "ci": c.Ci, "els": els, "got": got, "s": c.S})
+				return nil
+			}
+			var got bool
+			p := guard(func() { got = ap.IRI(c.A).Contains(ap.IRI(c.B), c.Cs) })
+			if p != "" || got != c.Res || n%every == 0 {
+				ev := J{"ev": "contains", "ci": c.Ci, "cw": c.Cw, "cs": c.Cs, "got": got, "a": c.A, "b": c.B}
+				if p != "" {
+					ev["got"] = "panic"
+				}
+				w.Write(ev)
+			}
+			return nil
+		})
+		if err != nil {
+			return err
+		}
+		return w.Close()
+	})
 	// vh c14-replay grid.ndjson nonurl.ndjson trace.ndjson stats.json <sampleEvery>
 	register("c14-replay", func(args []string) error {
 		grid, err := loadGrid(args[0])
